@@ -409,9 +409,14 @@ def check(prop, tier, seed):
     for kid, (k, n) in known_hits.items():
         log(f"KNOWN-FINDING: property={prop} {k['what']} [{kid}; {n} events]")
     replay_paths = []
+    # an event that is one step of a composite vector (a history) is replayed by performing the whole vector again
+    by_case = {v.get("case"): v for v in inputs if v.get("ev") in ("seq", "store", "chain_encode")} if violations else {}
     for i, (e, mine) in enumerate(violations[:20]):
         rp = os.path.join(wd, f"replay-{i}.json")
-        json.dump({"property": prop, "failed_clauses": mine, "event": e}, open(rp, "w"), indent=1)
+        rec = {"property": prop, "failed_clauses": mine, "event": e}
+        if e.get("case") in by_case and e.get("ev") != by_case[e["case"]].get("ev"):
+            rec["vector"] = by_case[e["case"]]
+        json.dump(rec, open(rp, "w"), indent=1)
         replay_paths.append(rp)
         log(f"VIOLATION property={prop} replay={os.path.relpath(rp, ROOT)}")
         log(f"  event={e.get('ev')} case={e.get('case')} failed={mine}")
@@ -470,7 +475,7 @@ def replay(prop, path):
     shutil.rmtree(wd, ignore_errors=True)
     os.makedirs(wd)
     r = json.load(open(path))
-    e = r["event"]
+    e = r.get("vector") or r["event"]
     e.pop("out", None)
     inp = os.path.join(wd, "in.ndjson")
     open(inp, "w").write(json.dumps(e) + "\n")
